@@ -88,7 +88,8 @@ def gen_job(rng, name, allow_never=True):
     d = rng.choice([0, 1, 1, 2, 3])
     sp = dict(name=name, type='job', duration=d, outcome='raise' if rng.random() < 0.25 else 'ret',
               critical=rng.random() < 0.3, forever=rng.random() < 0.15,
-              cancel_delay=rng.choice([0, 0, 0.25]), shutdown_duration=rng.choice([0, 0, 0.25, 3]))
+              cancel_delay=rng.choice([0, 0, 0.25]), shutdown_duration=rng.choice([0, 0, 0.25, 3]),
+              yields=rng.choice([0, 0, 0, 1, 2, 3]))
     if sp['forever'] and allow_never and rng.random() < 0.6:
         sp['duration'] = None
     return sp
